@@ -175,8 +175,23 @@ def check_case(case):
         outs.add(run_one(res, spec, None, None, None, "settings"))
         res.nontrivial = 1
         return res
+    if fam == "huge":   # healthy systems at extreme magnitudes (megavolts / mega-amps, micro-ohms): a steady state with a 0.1 % drop exists and must be found
+        V, I = case["V"], case["I"]
+        spec = dict(name="huge", phases=None, comps=[
+            dict(n="S", k="Source", a=dict(vo=V * case["pol"], rs=0.0), p=[], g="", r=""),
+            dict(n="R", k="RLoss", a=dict(rs=_r(1e-3 * V / I)), p=["S"], g="", r=""),
+            dict(n="L", k=case["load"], a=(dict(rs=_r(V / I)) if case["load"] == "RLoad" else (dict(ii=I) if case["load"] == "ILoad" else dict(pwr=_r(V * I)))), p=["R"], g="", r="")])
+        o = run_one(res, spec, None, None, None, "huge")
+        if o != "table":
+            res.v(("C03.liveness", o, "huge"), "V=%g I=%g %s: a steady state with a 0.1 %% series drop exists but solve() -> %s" % (V, I, case["load"], o))
+        res.nontrivial = 1
+        return res
     extra = heavy_letters(case["pal"]) if fam in ("over", "livep") else None
-    spec = spec_from_forest(case["f"], case["pal"], case["pol"], case["srs"], extra=extra)
+    if case.get("micro"):   # the 1 V / sub-milliamp regime with steep 2-D tables (see sysmodel.micro_letters)
+        from ..sysmodel import micro_letters
+        spec = spec_from_forest(case["f"], case["pal"], case["pol"], case["srs"], src_vo=1.0, extra=micro_letters())
+    else:
+        spec = spec_from_forest(case["f"], case["pal"], case["pol"], case["srs"], extra=extra)
     if case.get("who"):
         spec = with_phases(spec, PH2, {case["who"]: case["pc"]})
     if fam == "settings":
@@ -197,6 +212,14 @@ def check_case(case):
                 assign[c["n"]] = {"a": _r(0.004 * P["ki"])}
             elif c["n"].startswith("PLp"):
                 assign[c["n"]] = {"a": _r(0.004 * P["ki"] * P["V"])}
+        if case.get("offheavy"):
+            # the element above the heavy load is switched OFF in phase b, where the load table asks for an overload current: the phase's
+            # steady state is simply "switch open, load at 0 A"
+            dd0 = resolve(spec)
+            for c in spec["comps"]:
+                if c["n"].startswith("ILp") and dd0[dd0[c["n"]]["parents"][0]]["k"] in PHASE_LIST_KINDS and dd0[c["n"]]["parents"][0] != "S":
+                    assign[c["n"]] = {"a": assign[c["n"]]["a"], "b": 1.0}
+                    assign[dd0[c["n"]]["parents"][0]] = ["a"]
         spec = with_phases(spec, PH2, assign)
         ok = True
         for ph in PH2:
@@ -289,15 +312,29 @@ def gen_cases(tier):
         from ..sysmodel import SIG_NEGTAB
         for n in (1, 2, 3):
             for f in Trees(*SIG_NEGTAB).iter_forests(n):
-                if "m" in str(f):
+                if "m" in str(f) or "LRq" in str(f):
                     for pol in (1, -1):
                         yield dict(fam="live", f=f, pal=pal, pol=pol, srs=0.0)
+        from ..sysmodel import SIG_MICRO
+        for n in (1, 2, 3):
+            for f in Trees(*SIG_MICRO).iter_forests(n):
+                yield dict(fam="live", f=f, pal=pal, pol=1, srs=50.0, micro=True)
+                if n <= 2:
+                    yield dict(fam="settings", f=f, pal=pal, pol=1, srs=50.0, micro=True)
+        if pal == pals[0]:
+            for V in (1.1e3, 1.1e6, 3.0e7, 48.0, 1e-3):
+                for I in (1.0, 2.5e6, 1e-6):
+                    for load in ("RLoad", "ILoad", "PLoad"):
+                        for pol in (1, -1):
+                            yield dict(fam="huge", V=V, I=I, load=load, pol=pol, pal=pal)
         # C liveness
         livep = Trees(["RLh", "PSh", "MXh", "RMh", "RL", "CVc", "LRc"], ["ILp", "PLp", "IL"], max_one=("MXh",))
         for n in ((1, 2, 3) if tier == "quick" else (1, 2, 3, 4)):
             for f in livep.iter_forests(n):
                 if "ILp" in str(f) or "PLp" in str(f):
                     yield dict(fam="livep", f=f, pal=pal, pol=1, srs=0.0)
+                    if "ILp" in str(f) and n >= 2:
+                        yield dict(fam="livep", f=f, pal=pal, pol=1, srs=0.0, offheavy=True)
         for n in ((1, 2, 3) if tier == "quick" or pal != sd % 3 else (1, 2, 3, 4)):
             for f in mid.iter_forests(n):
                 yield dict(fam="live", f=f, pal=pal, pol=1, srs=0.37)
